@@ -56,4 +56,94 @@ theorem restore_capture_id (t : Node) (ht : TreeOk t) (o : Opts) (ho : OptsOk o)
       SameTree (restore o dstMode (linkify .tar (capture t))).1 (toFS t) :=
   restore_capture_same t ht o ho dstMode hdst
 
+/-- The hypotheses of `restore_capture_id` are satisfiable by a tree with a read-only
+directory, a hard-link group spanning two directories, an empty directory and a symlink;
+on it the model computes what the theorem says, as root and as a non-root user. -/
+example : sample.namesOk = true ∧ (∃ m cs, sample = .dir m cs) ∧
+    (∀ e ∈ capture sample, e.mode < 4096) ∧
+    (restore { root := false, umask := 0o077 } 0o700 (linkify .tar (capture sample))).2.all (· == .ok) = true := by
+  refine ⟨by decide, ⟨_, _, rfl⟩, by decide, by decide⟩
+
+/-! ### deferred directory fix-ups -/
+
+/-- **Fix-ups after children.**  When a captured tree is restored, `archive_write_close` runs the
+fix-up loop only after every entry has been restored (`restore` = entry phase, then
+`closeDisk`), every directory of the tree has a fix-up carrying its archived mode and mtime,
+and in the order `sort_dir_list` produces the fix-up of a directory comes after the fix-ups of
+all directories below it.  (Together with the kernel model — creating a child touches the
+parent's mtime, a non-root caller needs search permission on the way — this is why read-only
+directories still receive their children and why directory mtimes survive:
+`restore_capture_id`.) -/
+theorem fixups_after_children (t : Node) (ht : TreeOk t) (o : Opts) (ho : OptsOk o) (dstMode : Nat)
+    (hdst : o.root = true ∨ (dstMode &&& 0o200 ≠ 0 ∧ dstMode &&& 0o100 ≠ 0))
+    (d c : Entry) (hd : d ∈ capture t) (hc : c ∈ capture t) (hdd : d.ftype = .dir) (hcd : c.ftype = .dir)
+    (n : Name) (r : Path) (hbelow : c.path = d.path ++ n :: r) :
+    let w := (restoreAll o (emptyDst dstMode) (linkify .tar (capture t))).1
+    ∃ fd fc a b z, fd.path = d.path ∧ fd.mode = d.mode ∧ fd.mtime = d.mtime ∧ fd.doTimes = true ∧
+      fc.path = c.path ∧ fc.mode = c.mode ∧ fc.mtime = c.mtime ∧ fc.doTimes = true ∧ fc.doMode = true ∧
+      sortDir w.fixups = a ++ fc :: b ++ fd :: z :=
+  fixups_order_of_restore t ht o ho dstMode hdst d c hd hc hdd hcd n r hbelow
+
+/-- The order matters: applying the two fix-ups of `a/` (0555) and `a/d/` parent-first, a non-root
+user can still fix `a/d` only because `a` keeps its search bit; with `a` = 0600 it fails, which is
+what the sorted order avoids.  (A test on one tree, not a theorem.) -/
+example :
+    let fs : FS := [([], ⟨0, .dir, 0o700, none⟩), ([[97]], ⟨1, .dir, 0o700, none⟩), ([[97], [100]], ⟨2, .dir, 0o700, none⟩)]
+    let fa : Fixup := ⟨[[97]], 0o600, tm 1, true, true⟩
+    let fd : Fixup := ⟨[[97], [100]], 0o500, tm 2, true, true⟩
+    ((applyFixup { root := false } (applyFixup { root := false } fs fa) fd).lookup [[97], [100]]).map (·.mode) = some 0o700 ∧
+    ((applyFixup { root := false } (applyFixup { root := false } fs fd) fa).lookup [[97], [100]]).map (·.mode) = some 0o500 := by
+  decide
+
+/-! ### listing -/
+
+/-- **`bsdtar -t` lists exactly the objects archived**: the names printed for the archive written
+from a captured tree are the captured paths, in capture order — hence (with
+`capture_visits_once`) each object of the tree exactly once. -/
+theorem list_eq_capture (t : Node) (ht : TreeOk t) :
+    listing (linkify .tar (capture t)) = (capture t).map (·.path) ∧
+      (listing (linkify .tar (capture t))).Perm ((t.objects []).map (·.path)) := by
+  have hes := entriesOk_of_treeOk ht
+  have h1 : listing (linkify .tar (capture t)) = (capture t).map (·.path) := by
+    rw [linkify_tar_eq _ hes.linkOk hes.fresh]
+    exact tarSpec_paths _
+  exact ⟨h1, h1 ▸ (capture_perm_objects t).map _⟩
+
+example : listing (linkify .tar (capture sample)) =
+    [[], [[97]], [[98]], [[99]], [[99], [115]], [[97], [120]], [[97], [100]]] := by decide
+
+/-! ### cpio: the full statement is false of the code as it is -/
+
+/-- The same statement for the cpio pipeline (`bsdcpio -o | bsdcpio -i`). -/
+def CpioRoundTrip : Prop :=
+  ∀ (t : Node), TreeOk t → ∀ (o : Opts), OptsOk o → ∀ (dstMode : Nat),
+    (o.root = true ∨ (dstMode &&& 0o200 ≠ 0 ∧ dstMode &&& 0o100 ≠ 0)) →
+    ∀ s ∈ (restore o dstMode (cpioArchive .newCpio (capture t))).2, s = .ok
+
+def roFile : Inode := { ino := 10, nlink := 2, ftype := .reg, md := ⟨0o444, tm 7⟩, payload := .data ⟨3, 1, [(0, 3)]⟩ }
+/-- `.` ⊃ {`a`, `b`}: two names of one read-only file. -/
+def roLinks : Node := .dir ⟨0o755, tm 1⟩ (.cons [97] (.leaf roFile) (.cons [98] (.leaf roFile) .nil))
+
+theorem roLinks_ok : TreeOk roLinks :=
+  { isDir := ⟨_, _, rfl⟩, names := by decide, leaves := by decide, modes := by decide,
+    links := by decide, counts := by decide }
+
+/-- Witness (known finding `cpio-readonly-hardlink-nonroot`): a non-root user restoring two
+names of a read-only file from a new-cpio archive — the body comes with the last name, the
+file was already created empty with mode 0444, `open(O_WRONLY|O_TRUNC)` is refused. -/
+theorem cpio_round_trip_false : ¬ CpioRoundTrip := by
+  intro h
+  have := h roLinks roLinks_ok { root := false } ⟨rfl, rfl, rfl⟩ 0o755 (Or.inr (by decide))
+  revert this
+  decide
+
+/-- Without hard links the cpio pipeline hands the entries through unchanged, so
+`restore_capture_id` covers it. -/
+theorem cpio_partial_no_links (es : List Entry) (st : Lnk.Strategy)
+    (h1 : ∀ e ∈ es, e.ftype ≠ .dir → e.nlink = 1)
+    (h2 : ∀ e ∈ es, e.hardlink = none ∧ e.sizeSet = true)
+    (h3 : ∀ e ∈ es, e.size = e.payload.size ∧ (e.ftype ≠ .reg → e.size = 0)) :
+    (cpioArchive st es).map (·.path) = es.map (·.path) ∧ ∀ e ∈ cpioArchive st es, e.hardlink = none :=
+  cpioArchive_no_links es st h1 h2 h3
+
 end LA.C12
